@@ -93,7 +93,13 @@ THEOREMS = [
     "SymmModel.C09.Op2.congr_obsEq",
     "SymmModel.C09.Prog.lazy_unobservable_all",
     "SymmModel.C09.exS_stOk",
-    "SymmModel.C09.squeeze_needs_keys_in_tables"
+    "SymmModel.C09.squeeze_ignores_stale_key",
+    "SymmModel.C09.squeeze_congr_any_phases",
+    "SymmModel.C09.squeeze_sync_any_phases",
+    "SymmModel.C09.secInTables_of_valid",
+    "SymmModel.C09.squeeze_congr_of_valid",
+    "SymmModel.C09.squeeze_sync_of_valid",
+    "SymmModel.C09.squeeze_elem_ignores_stale"
 ]
 LEAN_FILES = ["SymmModel.Props.C09", "SymmModel.Proofs.LazyLemmas", "SymmModel.Props.C09b", "SymmModel.Props.C09All", "SymmModel.Proofs.LazyMore"]
 PLANNED = []
